@@ -9,6 +9,7 @@ import KiraModel.Proofs.EasingLemmas
 import KiraModel.Model.Units
 import KiraModel.Model.Easing
 import KiraModel.Model.ClockTime
+import KiraModel.Proofs.GenAgree
 import Mathlib.Tactic.Linarith
 import Mathlib.Tactic.Ring
 import Mathlib.Tactic.FieldSimp
